@@ -29,13 +29,6 @@ Proof.
   - unfold Rmax. destruct (Rle_dec N s); [right; now right|]. destruct Hmem as [->|Hm]; [now left|right; now left].
 Qed.
 
-Lemma ismax_iff (P Q : R -> Prop) N : ismax P N -> (forall x, P x <-> Q x) -> ismax Q N.
-Proof.
-  intros (Hub & Hmem) H. split.
-  - intros x Hx. apply Hub. now apply H.
-  - destruct Hmem as [->|Hm]; [now left|right; now apply H].
-Qed.
-
 (* members of one family within relative distance g of members of the other, both ways *)
 Lemma ismax_pert2 (P P' : R -> Prop) N N' g : 0 <= g ->
   (forall x, P x -> 0 <= x) ->
